@@ -16,6 +16,15 @@ type Request struct {
 	N    int     `json:"n"`
 	Succ [][]int `json:"succ"`
 
+	// label: the DOT attributes of a result node (Who "result") or of a group node (Who "group") of universe type Ty,
+	// whose name as package reflect prints it must be TStr (that string is what the model is given)
+	Who   string `json:"who"`
+	Ty    int    `json:"ty"`
+	TStr  string `json:"tstr"`
+	Name  string `json:"name"`
+	Group string `json:"group"`
+	Err   int    `json:"err"`
+
 	// prog
 	Cfg    Cfg              `json:"cfg"`
 	Types  json.RawMessage  `json:"types"` // facts for the model; the executor asks reflect
@@ -134,6 +143,11 @@ func (o Op) hasOpt(name string) bool {
 type GraphRes struct {
 	OK    bool  `json:"ok"`
 	Cycle []int `json:"cycle"`
+}
+
+// LabelRes answers a label request.
+type LabelRes struct {
+	Text string `json:"text"`
 }
 
 // ProgRes answers a program request.
